@@ -831,7 +831,8 @@ impl ProcessEvent<RoutingEvent> for RoutingThread {
                 ))
                 .await;
 
-                self.blockchain_sync_state.mark_as_fetched(block_hash);
+                self.blockchain_sync_state
+                    .mark_as_fetched_from_peer(peer_index, block_hash);
 
                 self.fetch_next_blocks().await;
 
